@@ -128,6 +128,11 @@ def run_inst(spec, run):
             run.obligation(ctx, "flags-sound", z3.Or(fv), conc)
         if ev:
             run.obligation(ctx, "equation-bounds-exact", z3.Or(ev), conc)
+        env_ = res["env"]
+        ext = [v.e == plh.LO16 for k, v in env_.items() if k.startswith("lo_")] + [v.e == plh.HI16 for k, v in env_.items() if k.startswith("hi_")]
+        run.validate(ctx, conc, lambda m: {"flags": {f["id"]: {"taut": bool(f["taut"]), "contr": bool(f["contr"]),
+                                                            "eqb": [S.model_int(m, f["eqb"][0]), S.model_int(m, f["eqb"][1])]} for f in res["flags"]}},
+                     extremes=z3.Or(ext) if ext else None)
         run.sample({"model": pl.show(model_spec), "part": "flags", "path_condition": [str(z3.simplify(c)) for c in ctx.pc][:6]})
 
     def on_path(ctx, res):
